@@ -6,6 +6,16 @@ HERE = os.path.dirname(os.path.dirname(os.path.abspath(__file__)))
 ALL = ["C%02d" % i for i in range(1, 21)]
 
 CHECKS = {
+ "C03": dict(
+    category="model_checking", design_ref="DESIGN.md 5/C03",
+    text="TLA+ state machine of the in-memory archive (spec/BinArchive.tla): every operation is a function to the set of allowed outcomes. TLC checks conservation, inverse, rejection and well-annotatedness laws on all small archives x all boundary events; every (state, event) pair is replayed on a real BinArchive and the full observable state (incl. pending c-strings via the cfg-gated hook) compared; random histories recorded from mila are validated step by step by TLC.",
+    note="Bounded model (archives <= 8/12 bytes, curated annotations, boundary-value events); beyond it random histories (archives <= ~260 bytes). Only cell-aligned single annotations per cell (the property's domain). Harness builder/projection and the hook are trusted.",
+    technique="TLA+ state machine + TLC exhaustive law check; spec->impl transition replay; impl->spec trace validation"),
+ "C04": dict(
+    category="model_checking", design_ref="DESIGN.md 5/C04",
+    text="Same specification: typed/byte/annotation accessors and the stream cursors as outcome-set functions over mathematical integers (MAXU encoding for addresses near usize::MAX). TLC checks bounds-iff, locality, read-back and stream=positional laws; all (state, event) pairs are replayed under both arithmetic profiles; random interleavings of stream and positional calls are validated by TLC.",
+    note="Sizes {0,1,4,6,9}, boundary addresses/lengths, curated bit patterns (sign bits, NaN payloads); zero-length accesses and the cursor after a failed call are left open as the statement is silent. Both profiles (overflow-checks on/off).",
+    technique="TLA+ state machine + TLC; spec->impl transition replay under two build profiles; impl->spec trace validation"),
  "C01": dict(
     category="model_checking", design_ref="DESIGN.md 5/C01",
     text="TLA+ specification of the bin archive file format (spec/BinFormat.tla: Canon, Layouts, WellFormedFor, total reference parser RefParse). TLC checks on the bounded model that every conforming layout of every content is well-formed and re-parses to the content; every generated layout is fed to mila's parser and compared; images serialized by mila for random larger contents are validated by TLC acting as the independent reference reader.",
@@ -47,9 +57,9 @@ def main():
         "setup_cmd": "./setup.sh",
         "hooks": {
             "guard": "mila_verif",
-            "enable": "RUSTFLAGS --cfg mila_verif via /verif/harness/.cargo/config.toml (no hook is currently needed: the public API exposes the abstract state)",
+            "enable": "RUSTFLAGS --cfg mila_verif via /verif/harness/.cargo/config.toml (one add-only hook: BinArchive::verif_pending_c_strings exposes pending c-strings)",
             "baseline_off_cmd": "cd /repo && cargo test --workspace --no-fail-fast --offline",
-            "source_commits": [],
+            "source_commits": ["f5eae9b"],
             "add_only": True,
         },
         "engines": [
